@@ -340,6 +340,11 @@ func runC11(r *ev.Run) {
 						if failed != "" {
 							r.Add("impl_errors", 1)
 							r.Distinct("impl_error_kinds", failed)
+							// the one refusal that is tolerated: sequences the merge does not implement (insert after delete of the same row,
+							// see the C03 known finding) are refused as a whole; any other error on a sequence the reference executes is reported
+							if !strings.Contains(failed, "sequence of updates not supported") {
+								r.Violation("c11.error."+colShape(c)+"."+style, fmt.Sprintf("%s (%s) start=%s seq=%v [%s]: %s", c.Name, colShape(c), rowStr(start), names, style, failed), cse)
+							}
 							continue
 						}
 						if kind, msg := c11Check(e, c11Observe(acc, uuid), start, cur); kind != "" {
